@@ -105,8 +105,39 @@ def describe(c, o):
 def known(c, o, kf):
     """F35: append_to_family next to a comment line that the comment exception had left unattached (or whose
     family is non-contiguous because of such a comment): an existing line changes parent."""
+    if o.get("fatal"):
+        return None
+    # F43: a payload at the target's own indent on a target that has children (the line below it is deeper) is
+    # placed at linenum + len(children), inside the family
+    ids43 = [k["id"] for k in kf if k.get("trigger") == "c06_atf_sibling_with_children"]
+    if ids43:
+        ind = lambda t: len(t) - len(t.lstrip())
+        before = c["lines"]
+        for s in o["steps"]:
+            if s["op"].startswith("(OAtf ") and s["after"] and not s.get("broken"):
+                parts = s["op"].split(" ", 3)
+                i, k = int(parts[1]), int(parts[2])
+                pay = s["after"][0][k]
+                w = 2 if c["syntax"] == "nxos" else 1
+                # classify_family_indent(payload) == 0 (the code's notion of "sibling level": the indent difference
+                # in units of auto_indent_width, truncated toward zero)
+                sib = int((ind(pay) - ind(before[i])) / w) == 0
+                # the target has children: the first configuration line below it is deeper
+                # (some line below it, before the next configuration line that is not deeper, is deeper -- children
+                # may be blank-but-indented or comment lines as well)
+                has_kids = False
+                for t in before[i + 1:]:
+                    if ind(t) > ind(before[i]):
+                        has_kids = True
+                        break
+                    if t.strip() and t.lstrip()[:1] not in c["delims"]:
+                        break
+                if pay.strip() and sib and has_kids:
+                    return ids43[0]
+            if s["after"] and not s.get("broken"):
+                before = s["after"][0]
     ids = [k["id"] for k in kf if k.get("trigger") == "c06_atf_comment_exception"]
-    if not ids or o.get("fatal"):
+    if not ids:
         return None
     has_atf = any(s["op"].startswith("(OAtf") for s in o["steps"])
     # a comment line with positive indent directly below a deeper line, somewhere in a text the history went through
